@@ -7,6 +7,7 @@ from concurrent.futures import ProcessPoolExecutor
 import lib
 
 LETTERS = "abcxyzQRS"
+MARKUP = ["*", "`", "|", "_", "\\", "<", ">", "&", "~", "^", "**", "``"]
 # (incl. characters a Unicode normalisation would replace: OHM SIGN, KELVIN SIGN, a CJK compatibility ideograph, e + combining acute)
 NONASCII = ["é", "ß", "漢", "🙂", "ñ", "Ω", "\u2126", "\u212a", "\uf900", "e\u0301"]
 
@@ -15,7 +16,9 @@ def conc_chars(seq, rng):
     out = []
     for ch in seq:
         if ch == "a":
-            out.append(rng.choice(LETTERS))
+            # the "letter" class of the doc text also stands for the characters reST gives a meaning to: a doccomment
+            # line reaches the page as written, not escaped, wrapped or re-flowed
+            out.append(rng.choice(MARKUP) if rng.random() < 0.3 else rng.choice(LETTERS))
         elif ch == "1":
             out.append(rng.choice("0123456789"))
         elif ch == "e":
